@@ -826,3 +826,829 @@ Proof.
   intros A d lil l dst Hl Hd. unfold lut_dimX, lut_dimY.
   apply il_convert_correct_lemma; auto.
 Qed.
+
+(* ------------------------------------------------------------------------------------------ *)
+(** * Old-style run-length coder (dfrle.c): decode (encode row) = row for every byte row *)
+
+Lemma cnt_lit_facts : forallb (fun c => Nat.land c dfrle_dec_flag =? 0) (seq 0 128) = true.
+Proof. vm_compute. reflexivity. Qed.
+
+Lemma cnt_run_facts :
+  forallb (fun r => let c := Nat.lor dfrle_run_flag (r mod 256) mod 256 in
+                    negb (Nat.land c dfrle_dec_flag =? 0) && (Nat.land c dfrle_dec_mask =? r)) (seq 0 128) = true.
+Proof. vm_compute. reflexivity. Qed.
+
+Lemma unrle_idle_eq : forall c r,
+    unrle_sm DIdle (c :: r) =
+    if Nat.land c dfrle_dec_flag =? 0
+    then match c with 0 => unrle_sm DIdle r | _ => unrle_sm (DLit c) r end
+    else unrle_sm (DRun (Nat.land c dfrle_dec_mask)) r.
+Proof. reflexivity. Qed.
+
+Lemma unrle_lit : forall l k tail, length l = S k -> unrle_sm (DLit (S k)) (l ++ tail) = l ++ unrle_sm DIdle tail.
+Proof.
+  induction l as [|a l IH]; intros k tail H; [discriminate|].
+  simpl in H. injection H as H. change ((a :: l) ++ tail) with (a :: (l ++ tail)).
+  change (unrle_sm (DLit (S k)) (a :: l ++ tail))
+    with (a :: unrle_sm (match S k with S (S k') => DLit (S k') | _ => DIdle end) (l ++ tail)).
+  simpl app. f_equal. destruct k.
+  - destruct l; [reflexivity|discriminate].
+  - apply IH. auto.
+Qed.
+
+Lemma unrle_flush : forall lit tail,
+    length lit <= 127 -> unrle_sm DIdle (rle_flush lit ++ tail) = lit ++ unrle_sm DIdle tail.
+Proof.
+  intros lit tail H. destruct lit as [|a l]; [reflexivity|].
+  unfold rle_flush. remember (a :: l) as lit eqn:E.
+  assert (Hk : exists k, length lit = S k) by (subst; simpl; eauto). destruct Hk as [k Hk].
+  rewrite Hk. rewrite Nat.mod_small by lia.
+  change ((S k :: lit) ++ tail) with (S k :: (lit ++ tail)). rewrite unrle_idle_eq.
+  pose proof cnt_lit_facts as F. rewrite forallb_forall in F.
+  rewrite (F (S k)) by (apply in_seq; lia).
+  apply unrle_lit. auto.
+Qed.
+
+Lemma unrle_idle_run : forall r b tail,
+    r <= 127 ->
+    unrle_sm DIdle ((Nat.lor dfrle_run_flag (r mod 256) mod 256) :: b :: tail) = repeat b r ++ unrle_sm DIdle tail.
+Proof.
+  intros r b tail H. rewrite unrle_idle_eq.
+  pose proof cnt_run_facts as F. rewrite forallb_forall in F.
+  specialize (F r ltac:(apply in_seq; lia)). cbv zeta in F. apply andb_prop in F. destruct F as [F1 F2].
+  apply negb_true_iff in F1. rewrite F1. apply Nat.eqb_eq in F2. rewrite F2. reflexivity.
+Qed.
+
+Lemma run_len_le : forall b l cap, run_len b l cap <= cap.
+Proof.
+  intros b l cap. revert l. induction cap; intros l; [destruct l; simpl; lia|].
+  destruct l as [|x l]; simpl; [lia|]. destruct (x =? b); [specialize (IHcap l); lia | lia].
+Qed.
+
+Lemma run_len_split : forall b l cap, l = repeat b (run_len b l cap) ++ skipn (run_len b l cap) l.
+Proof.
+  intros b l cap. revert l. induction cap; intros l; [destruct l; reflexivity|].
+  destruct l as [|x l]; [reflexivity|]. simpl. destruct (x =? b) eqn:E; [|reflexivity].
+  apply Nat.eqb_eq in E. subst. simpl. f_equal. apply IHcap.
+Qed.
+
+Lemma rle_go_correct : forall fuel data lit tail,
+    length data <= fuel -> length lit <= dfrle_lit_flush ->
+    unrle_sm DIdle (rle_go fuel data lit ++ tail) = lit ++ data ++ unrle_sm DIdle tail.
+Proof.
+  induction fuel as [|f IH]; intros data lit tail Hf Hl.
+  - destruct data; [|simpl in Hf; lia]. simpl. apply unrle_flush. unfold dfrle_lit_flush in Hl. lia.
+  - destruct data as [|b rest].
+    + simpl. apply unrle_flush. unfold dfrle_lit_flush in Hl. lia.
+    + cbn [rle_go]. set (k := run_len b rest (dfrle_run_window - 1)).
+      assert (Hk : k <= dfrle_run_window - 1) by apply run_len_le.
+      destruct (dfrle_min_run <? S k) eqn:E.
+      * rewrite <- !app_assoc. rewrite unrle_flush by (unfold dfrle_lit_flush in Hl; lia).
+        f_equal. change ([Nat.lor dfrle_run_flag (S k mod 256) mod 256; b] ++ rle_go f (skipn (S k) (b :: rest)) [] ++ tail)
+          with ((Nat.lor dfrle_run_flag (S k mod 256) mod 256) :: b :: (rle_go f (skipn (S k) (b :: rest)) [] ++ tail)).
+        assert (Hk2 : S k <= 127) by (clearbody k; unfold dfrle_run_window in Hk; lia). rewrite unrle_idle_run by exact Hk2.
+        rewrite IH.
+        -- simpl. f_equal. rewrite app_assoc. f_equal. symmetry. apply run_len_split.
+        -- simpl. rewrite skipn_length. simpl in Hf. lia.
+        -- simpl. lia.
+      * destruct (dfrle_lit_flush <? length (lit ++ [b])) eqn:E2.
+        -- rewrite <- app_assoc. rewrite unrle_flush.
+           ++ rewrite IH; [| simpl in Hf; lia | simpl; lia]. simpl. rewrite <- app_assoc. reflexivity.
+           ++ rewrite app_length. simpl. unfold dfrle_lit_flush in Hl. lia.
+        -- rewrite IH.
+           ++ rewrite <- app_assoc. reflexivity.
+           ++ simpl in Hf. lia.
+           ++ apply Nat.ltb_ge in E2. exact E2.
+Qed.
+
+Lemma dfrle_roundtrip_lemma : forall row, dfrle_decode (dfrle_encode row) = row.
+Proof.
+  intros row. unfold dfrle_decode, dfrle_encode.
+  pose proof (rle_go_correct (length row) row [] [] (le_n _) (Nat.le_0_l _)) as H.
+  rewrite !app_nil_r in H. exact H.
+Qed.
+
+Lemma rle_image_roundtrip_lemma : forall w h bytes,
+    length bytes = w * h -> rle_image_decode (rle_image_encode w h bytes) = bytes.
+Proof.
+  intros w h bytes Hl. unfold rle_image_decode, rle_image_encode. rewrite map_map.
+  rewrite (map_ext _ (fun r => r)) by (intros; apply dfrle_roundtrip_lemma). rewrite map_id.
+  unfold rows_of. rewrite <- flat_map_concat_map.
+  rewrite <- (seq_mul_flat (fun q => nth q bytes 0) w h). rewrite <- Hl. apply map_nth_seq_id.
+Qed.
+
+(* ------------------------------------------------------------------------------------------ *)
+(** * Region engine: writes into an existing image (per-row and per-pixel Hseek + Hwrite) *)
+
+Section ApplyTraceG.
+  Context {A T : Type}.
+  Variables (n : nat) (src : list A) (fa fb : T -> nat) (def : A).
+  Definition mk_trg (ts : list T) := map (fun t => (fa t, fb t)) ts.
+
+  Lemma apply_traceg_length : forall ts dst,
+      (forall t, In t ts -> fa t + n <= length src /\ fb t + n <= length dst) ->
+      length (apply_trace n src (mk_trg ts) dst) = length dst.
+  Proof.
+    induction ts as [|t ts IH]; intros dst H; simpl; auto.
+    unfold apply_trace in *. simpl. rewrite IH.
+    - apply memcpy_at_length; apply H; left; auto.
+    - intros t' Ht'. rewrite memcpy_at_length by (apply H; left; auto). apply H. right; auto.
+  Qed.
+
+  Lemma apply_traceg_untouched : forall ts dst p,
+      (forall t, In t ts -> fa t + n <= length src /\ fb t + n <= length dst) ->
+      (forall t, In t ts -> p < fb t \/ fb t + n <= p) ->
+      nth p (apply_trace n src (mk_trg ts) dst) def = nth p dst def.
+  Proof.
+    induction ts as [|t ts IH]; intros dst p H Hp; simpl; auto.
+    unfold apply_trace in *. simpl. rewrite IH; auto.
+    - apply memcpy_at_nth_out; try (apply H; left; auto). apply Hp. left; auto.
+    - intros t' Ht'. rewrite memcpy_at_length by (apply H; left; auto). apply H. right; auto.
+    - intros t' Ht'. apply Hp. right; auto.
+  Qed.
+
+  Lemma apply_traceg_nth : forall ts dst t b,
+      (forall t, In t ts -> fa t + n <= length src /\ fb t + n <= length dst) ->
+      (forall t t', In t ts -> In t' ts -> fb t = fb t' -> fa t = fa t') ->
+      (forall t t', In t ts -> In t' ts -> fb t = fb t' \/ fb t + n <= fb t' \/ fb t' + n <= fb t) ->
+      In t ts -> b < n ->
+      nth (fb t + b) (apply_trace n src (mk_trg ts) dst) def = nth (fa t + b) src def.
+  Proof.
+    induction ts as [|t0 ts IH]; intros dst t b H Hf Hd Ht Hb; [destruct Ht|].
+    assert (Hlen : length (memcpy_at src (fa t0) dst (fb t0) n) = length dst)
+      by (apply memcpy_at_length; apply H; left; auto).
+    assert (H' : forall t, In t ts -> fa t + n <= length src /\
+                                     fb t + n <= length (memcpy_at src (fa t0) dst (fb t0) n)).
+    { intros t' Ht'. rewrite Hlen. apply H. right; auto. }
+    change (apply_trace n src (mk_trg (t0 :: ts)) dst)
+      with (apply_trace n src (mk_trg ts) (memcpy_at src (fa t0) dst (fb t0) n)).
+    destruct (in_dec Nat.eq_dec (fb t) (map fb ts)) as [Hin|Hnin].
+    - apply in_map_iff in Hin. destruct Hin as [t' [E Ht']].
+      rewrite <- E. rewrite (IH _ t' b); auto.
+      + f_equal. f_equal. apply Hf; auto. right; auto.
+      + intros a a' Ha Ha'. apply Hf; right; auto.
+      + intros a a' Ha Ha'. apply Hd; right; auto.
+    - assert (t = t0 \/ (In t ts)) as [->|Ht'] by (destruct Ht; auto).
+      + rewrite apply_traceg_untouched; auto.
+        * apply memcpy_at_nth_in; auto; apply H; left; auto.
+        * intros t' Ht'.
+          destruct (Hd t0 t' (or_introl eq_refl) (or_intror Ht')) as [E|[E|E]]; [|lia|lia].
+          exfalso. apply Hnin. rewrite E. apply in_map. auto.
+      + exfalso. apply Hnin. apply in_map. auto.
+  Qed.
+End ApplyTraceG.
+
+Lemma apply_trace_app : forall {A} n (src : list A) a b dst,
+    apply_trace n src (a ++ b) dst = apply_trace n src b (apply_trace n src a dst).
+Proof. intros. unfold apply_trace. apply fold_left_app. Qed.
+
+Section WriteProofs.
+  Context {P : Type}.
+  Variable d : P.
+
+  Lemma run_wops_app : forall (a b : list (wop P)) e pos,
+      run_wops (a ++ b) e pos = run_wops b (fst (run_wops a e pos)) (snd (run_wops a e pos)).
+  Proof.
+    induction a as [|o a IH]; intros b e pos; simpl; auto. destruct o; apply IH.
+  Qed.
+
+  Lemma stream_write_memcpy : forall (data e : list P) s pos n,
+      s + n <= length data -> stream_write e pos (firstn n (skipn s data)) = memcpy_at data s e pos n.
+  Proof.
+    intros data e s pos n H. unfold stream_write, memcpy_at.
+    rewrite firstn_length, skipn_length, Nat.min_l by lia. reflexivity.
+  Qed.
+
+  Lemma run_solid_seek : forall n off rowadd plen (data e : list P) i0 pos,
+      (i0 + n) * plen <= length data ->
+      fst (run_wops (solid_seek_ops n off rowadd plen (skipn (i0 * plen) data)) e pos) =
+      apply_trace plen data (map (fun i => ((i0 + i) * plen, off + i * rowadd)) (seq 0 n)) e.
+  Proof.
+    induction n; intros off rowadd plen data e i0 pos H; [reflexivity|].
+    cbn [solid_seek_ops run_wops]. rewrite stream_write_memcpy by nia.
+    rewrite skipn_skipn'. replace (i0 * plen + plen) with (S i0 * plen) by lia.
+    rewrite IHn by nia. cbn [seq map]. rewrite (map_seq_shift _ 1 n).
+    unfold apply_trace at 2. cbn [fold_left fst snd].
+    replace ((i0 + 0) * plen) with (i0 * plen) by lia. replace (off + 0 * rowadd) with off by lia.
+    unfold apply_trace. f_equal. apply map_ext. intros i. f_equal; lia.
+  Qed.
+
+  Lemma strided_row_spec : forall n loff sadd (data e : list P) q0 pos,
+      q0 + n <= length data ->
+      fst (run_wops (fst (strided_row_ops n loff sadd 1 (skipn q0 data))) e pos) =
+      apply_trace 1 data (map (fun j => (q0 + j, loff + j * sadd)) (seq 0 n)) e /\
+      snd (strided_row_ops n loff sadd 1 (skipn q0 data)) = skipn (q0 + n) data.
+  Proof.
+    induction n; intros loff sadd data e q0 pos H.
+    - simpl. rewrite Nat.add_0_r. auto.
+    - cbn [strided_row_ops]. rewrite skipn_skipn'.
+      specialize (IHn (loff + sadd) sadd data (memcpy_at data q0 e loff 1) (q0 + 1) (loff + 1) ltac:(lia)).
+      destruct (strided_row_ops n (loff + sadd) sadd 1 (skipn (q0 + 1) data)) as [ops t] eqn:E.
+      cbn [fst snd] in *. destruct IHn as [A B]. split.
+      + cbn [run_wops]. rewrite stream_write_memcpy by lia.
+        replace (length (firstn 1 (skipn q0 data))) with 1
+          by (rewrite firstn_length, skipn_length; lia).
+        rewrite A. cbn [seq map]. rewrite (map_seq_shift _ 1 n).
+        unfold apply_trace at 2. cbn [fold_left fst snd].
+        replace (q0 + 0) with q0 by lia. replace (loff + 0 * sadd) with loff by lia.
+        unfold apply_trace. f_equal. apply map_ext. intros j. f_equal; lia.
+      + rewrite B. f_equal. lia.
+  Qed.
+
+  Lemma strided_seek_spec : forall n cxn off srow sadd (data e : list P) i0 pos,
+      (i0 + n) * cxn <= length data ->
+      fst (run_wops (strided_seek_ops n cxn off srow sadd 1 (skipn (i0 * cxn) data)) e pos) =
+      apply_trace 1 data
+                  (flat_map (fun i => map (fun j => ((i0 + i) * cxn + j, off + i * srow + j * sadd)) (seq 0 cxn)) (seq 0 n)) e.
+  Proof.
+    induction n; intros cxn off srow sadd data e i0 pos H; [reflexivity|].
+    cbn [strided_seek_ops].
+    destruct (strided_row_spec cxn off sadd data e (i0 * cxn) pos ltac:(nia)) as [A B].
+    destruct (strided_row_ops cxn off sadd 1 (skipn (i0 * cxn) data)) as [ops t] eqn:E.
+    cbn [fst snd] in *. rewrite run_wops_app. rewrite A. rewrite B.
+    replace (i0 * cxn + cxn) with (S i0 * cxn) by lia.
+    rewrite IHn by nia. cbn [seq flat_map]. rewrite apply_trace_app. rewrite (flat_map_seq_shift _ 1 n).
+    f_equal.
+    - apply flat_map_ext. intros i. apply map_ext. intros j. f_equal; lia.
+    - f_equal. apply map_ext. intros j. f_equal; lia.
+  Qed.
+
+  Lemma in_lattice_some : forall s t c v i, 1 <= t -> in_lattice s t c v = Some i -> v = s + i * t /\ i < c.
+  Proof.
+    intros s t c v i Ht H. unfold in_lattice in H.
+    destruct ((s <=? v) && ((v - s) mod t =? 0) && ((v - s) / t <? c)) eqn:E; [|discriminate].
+    injection H as <-. apply andb_prop in E. destruct E as [E E3]. apply andb_prop in E. destruct E as [E1 E2].
+    apply Nat.leb_le in E1. apply Nat.eqb_eq in E2. apply Nat.ltb_lt in E3. split; auto.
+    pose proof (Nat.div_mod (v - s) t ltac:(lia)). nia.
+  Qed.
+
+  Lemma in_lattice_hit : forall s t c i, 1 <= t -> i < c -> in_lattice s t c (s + i * t) = Some i.
+  Proof.
+    intros s t c i Ht Hi. unfold in_lattice.
+    replace (s + i * t - s) with (i * t) by lia.
+    rewrite Nat.mod_mul, Nat.div_mul by lia.
+    replace (s <=? s + i * t) with true by (symmetry; apply Nat.leb_le; lia).
+    rewrite Nat.eqb_refl. replace (i <? c) with true by (symmetry; apply Nat.ltb_lt; auto). reflexivity.
+  Qed.
+
+  (** the pixel at linear position [p] after the write: lattice points take the data, the rest is kept *)
+  Lemma spec_write_nth : forall (e data : list P) xdim ydim r p,
+      p < xdim * ydim ->
+      nth p (spec_write_px d e xdim ydim r data) d =
+      match in_lattice (r_sy r) (r_ty r) (r_cy r) (p / xdim), in_lattice (r_sx r) (r_tx r) (r_cx r) (p mod xdim) with
+      | Some i, Some j => nth (i * r_cx r + j) data d
+      | _, _ => nth p e d
+      end.
+  Proof. intros. unfold spec_write_px. rewrite nth_map_seq by auto. reflexivity. Qed.
+
+  Definition ppos (xdim : nat) (r : rgn) (i j : nat) : nat :=
+    (r_sy r + i * r_ty r) * xdim + (r_sx r + j * r_tx r).
+
+  Lemma ppos_divmod : forall xdim ydim r i j,
+      rgn_inside xdim ydim r = true -> i < r_cy r -> j < r_cx r ->
+      ppos xdim r i j / xdim = r_sy r + i * r_ty r /\ ppos xdim r i j mod xdim = r_sx r + j * r_tx r /\
+      ppos xdim r i j < xdim * ydim.
+  Proof.
+    intros xdim ydim r i j Hin Hi Hj. destruct (pixel_pos_bound xdim ydim r i j Hin Hi Hj) as (A & B & C).
+    unfold ppos. split; [apply div_of; auto | split; [apply mod_of; auto | lia]].
+  Qed.
+
+  Lemma ppos_inj : forall xdim ydim r i j i' j',
+      rgn_inside xdim ydim r = true -> i < r_cy r -> j < r_cx r -> i' < r_cy r -> j' < r_cx r ->
+      ppos xdim r i j = ppos xdim r i' j' -> i = i' /\ j = j'.
+  Proof.
+    intros xdim ydim r i j i' j' Hin Hi Hj Hi' Hj' E.
+    destruct (ppos_divmod xdim ydim r i j Hin Hi Hj) as (A & B & _).
+    destruct (ppos_divmod xdim ydim r i' j' Hin Hi' Hj') as (A' & B' & _).
+    rewrite E in A, B. rewrite A' in A. rewrite B' in B.
+    pose proof (inside_facts _ _ _ Hin) as (Htx & Hty & _). split; nia.
+  Qed.
+
+  (** common final step: a result that has the data at every lattice point and the old pixel elsewhere *)
+  Lemma write_pointwise : forall (e data res : list P) xdim ydim r,
+      length e = xdim * ydim -> rgn_inside xdim ydim r = true ->
+      length res = xdim * ydim ->
+      (forall i j, i < r_cy r -> j < r_cx r -> nth (ppos xdim r i j) res d = nth (i * r_cx r + j) data d) ->
+      (forall p, p < xdim * ydim -> (forall i j, i < r_cy r -> j < r_cx r -> p <> ppos xdim r i j) -> nth p res d = nth p e d) ->
+      res = spec_write_px d e xdim ydim r data.
+  Proof.
+    intros e data res xdim ydim r Hl Hin Hr Hhit Hmiss.
+    pose proof (inside_facts _ _ _ Hin) as (Htx & Hty & Hcx & Hcy & Hx & Hy).
+    apply (nth_ext _ _ d d).
+    - unfold spec_write_px. rewrite map_length, seq_length. auto.
+    - rewrite Hr. intros p Hp. rewrite spec_write_nth by auto.
+      assert (Hxd : xdim <> 0) by (intro; subst; simpl in Hp; lia).
+      destruct (in_lattice (r_sy r) (r_ty r) (r_cy r) (p / xdim)) as [i|] eqn:E1;
+        [destruct (in_lattice (r_sx r) (r_tx r) (r_cx r) (p mod xdim)) as [j|] eqn:E2|].
+      + apply in_lattice_some in E1; auto. apply in_lattice_some in E2; auto.
+        destruct E1 as [E1 Hi]. destruct E2 as [E2 Hj].
+        rewrite <- (Hhit i j Hi Hj). f_equal. unfold ppos. rewrite <- E1, <- E2.
+        pose proof (Nat.div_mod p xdim Hxd). lia.
+      + apply Hmiss; auto. intros i' j' Hi' Hj' Ep.
+        destruct (ppos_divmod xdim ydim r i' j' Hin Hi' Hj') as (A & B & _). rewrite <- Ep in B.
+        rewrite B in E2. rewrite in_lattice_hit in E2 by auto. discriminate.
+      + apply Hmiss; auto. intros i' j' Hi' Hj' Ep.
+        destruct (ppos_divmod xdim ydim r i' j' Hin Hi' Hj') as (A & B & _). rewrite <- Ep in A.
+        rewrite A in E1. rewrite in_lattice_hit in E1 by auto. discriminate.
+  Qed.
+End WriteProofs.
+
+Lemma region_write_refines_lemma : forall {P} (d : P) (e data : list P) xdim ydim r (f : P),
+    length e = xdim * ydim -> rgn_inside xdim ydim r = true -> length data = r_cx r * r_cy r ->
+    gr_write_px (Some e) xdim ydim r f data = spec_write_px d e xdim ydim r data.
+Proof.
+  intros P d e data xdim ydim r f Hl Hin Hd.
+  pose proof (inside_facts _ _ _ Hin) as (Htx & Hty & Hcx & Hcy & Hx & Hy).
+  destruct (whole_image xdim ydim r) eqn:Ew.
+  - (* whole image *)
+    assert (Hw := Ew). unfold whole_image, solid_block in Hw.
+    repeat (apply andb_prop in Hw; destruct Hw as [Hw ?]).
+    repeat match goal with H : (_ =? _) = true |- _ => apply Nat.eqb_eq in H end.
+    rewrite (whole_write_lemma (Some e) xdim ydim r f data Ew) by (try (intros l El; injection El as <-); subst; lia).
+    apply (write_pointwise d e data data xdim ydim r); auto; try (subst; lia).
+    + intros i j Hi Hj. f_equal. unfold ppos. nia.
+    + intros p Hp Hm. exfalso.
+      assert (Hxd : xdim <> 0) by (intro; subst; simpl in Hp; lia).
+      apply (Hm (p / xdim) (p mod xdim)).
+      * assert (p / xdim < ydim) by (apply Nat.div_lt_upper_bound; auto). lia.
+      * pose proof (Nat.mod_upper_bound p xdim Hxd). lia.
+      * unfold ppos. pose proof (Nat.div_mod p xdim Hxd). nia.
+  - unfold gr_write_px, gr_write_ops. rewrite Ew.
+    destruct (solid_block r) eqn:Es.
+    + (* solid block: one Hseek + Hwrite per row *)
+      unfold solid_block in Es. apply andb_prop in Es. destruct Es as [E1 E2].
+      apply Nat.eqb_eq in E1. apply Nat.eqb_eq in E2.
+      unfold G, wr_img_offset, wr_row_add, wr_pix_len.
+      change data with (skipn (0 * (1 * r_cx r)) data) at 1.
+      rewrite run_solid_seek by (simpl; lia).
+      set (fa := fun i : nat => (0 + i) * (1 * r_cx r)).
+      set (fb := fun i : nat => (xdim * r_sy r + r_sx r) * 1 + i * (1 * xdim)).
+      change (map (fun i : nat => ((0 + i) * (1 * r_cx r), (xdim * r_sy r + r_sx r) * 1 + i * (1 * xdim))) (seq 0 (r_cy r)))
+        with (mk_trg fa fb (seq 0 (r_cy r))).
+      assert (Hb : forall t, In t (seq 0 (r_cy r)) -> fa t + 1 * r_cx r <= length data /\ fb t + 1 * r_cx r <= length e).
+      { intros i Hi. apply in_seq in Hi. unfold fa, fb.
+        destruct (pixel_pos_bound xdim ydim r i (r_cx r - 1) Hin ltac:(lia) ltac:(lia)) as (A & B & C).
+        rewrite E1, E2 in *. split; nia. }
+      assert (Hpp : forall i j, ppos xdim r i j = fb i + j) by (intros; unfold ppos, fb; rewrite E1, E2; ring).
+      apply (write_pointwise d e data); auto.
+      * rewrite apply_traceg_length; auto.
+      * intros i j Hi Hj. rewrite Hpp.
+        rewrite (apply_traceg_nth (1 * r_cx r) data fa fb d); auto; try lia.
+        -- f_equal. unfold fa. lia.
+        -- intros t t' _ _ E. unfold fa, fb in *. nia.
+        -- intros t t' Ht Ht'. apply in_seq in Ht. apply in_seq in Ht'. unfold fb.
+           destruct (Nat.lt_trichotomy t t') as [L|[L|L]]; [right; left | left | right; right]; nia.
+        -- apply in_seq. lia.
+      * intros p Hp Hm. apply apply_traceg_untouched; auto.
+        intros i Hi. apply in_seq in Hi.
+        destruct (le_lt_dec (fb i) p) as [L1|L1]; [|left; auto].
+        destruct (le_lt_dec (fb i + 1 * r_cx r) p) as [L2|L2]; [right; auto|].
+        exfalso. apply (Hm i (p - fb i)); try lia. rewrite Hpp. lia.
+    + (* sub-sampling: one Hseek + Hwrite per pixel *)
+      unfold G, wr_img_offset, wr_srow_add, wr_stride_add.
+      change data with (skipn (0 * r_cx r) data) at 1.
+      rewrite strided_seek_spec by (simpl; lia).
+      rewrite (flat_map_list_prod2 (fun i j => ((0 + i) * r_cx r + j, (xdim * r_sy r + r_sx r) * 1 + i * (xdim * r_ty r * 1) + j * (1 * r_tx r)))).
+      set (fa := fun t : nat * nat => let '(i, j) := t in (0 + i) * r_cx r + j).
+      set (fb := fun t : nat * nat => let '(i, j) := t in (xdim * r_sy r + r_sx r) * 1 + i * (xdim * r_ty r * 1) + j * (1 * r_tx r)).
+      rewrite (map_ext _ (fun t => (fa t, fb t))) by (intros [i j]; reflexivity).
+      change (map (fun t => (fa t, fb t)) (list_prod (seq 0 (r_cy r)) (seq 0 (r_cx r))))
+        with (mk_trg fa fb (list_prod (seq 0 (r_cy r)) (seq 0 (r_cx r)))).
+      assert (Hpp : forall i j, ppos xdim r i j = fb (i, j)) by (intros; unfold ppos, fb; ring).
+      assert (Hts : forall t, In t (list_prod (seq 0 (r_cy r)) (seq 0 (r_cx r))) -> fst t < r_cy r /\ snd t < r_cx r).
+      { intros [i j] Ht. apply in_prod_iff in Ht. rewrite !in_seq in Ht. simpl. lia. }
+      assert (Hb : forall t, In t (list_prod (seq 0 (r_cy r)) (seq 0 (r_cx r))) -> fa t + 1 <= length data /\ fb t + 1 <= length e).
+      { intros [i j] Ht. destruct (Hts _ Ht) as [Hi Hj]. simpl in Hi, Hj.
+        destruct (ppos_divmod xdim ydim r i j Hin Hi Hj) as (_ & _ & C). rewrite Hpp in C.
+        split; [unfold fa; nia | lia]. }
+      apply (write_pointwise d e data); auto.
+      * rewrite apply_traceg_length; auto.
+      * intros i j Hi Hj. rewrite Hpp. rewrite <- (Nat.add_0_r (fb (i, j))).
+        rewrite (apply_traceg_nth 1 data fa fb d); auto; try lia.
+        -- f_equal. unfold fa. lia.
+        -- intros [a b] [a' b'] Ht Ht' E. destruct (Hts _ Ht) as [Ha Hb']. destruct (Hts _ Ht') as [Ha' Hb''].
+           simpl in *. rewrite <- !Hpp in E.
+           destruct (ppos_inj xdim ydim r a b a' b' Hin Ha Hb' Ha' Hb'' E) as [-> ->]. reflexivity.
+        -- apply in_prod_iff. rewrite !in_seq. lia.
+      * intros p Hp Hm. apply apply_traceg_untouched; auto.
+        intros [i j] Ht. destruct (Hts _ Ht) as [Hi Hj]. simpl in Hi, Hj.
+        specialize (Hm i j Hi Hj). rewrite Hpp in Hm. lia.
+Qed.
+
+(* ------------------------------------------------------------------------------------------ *)
+(** * First write of a new image: pointwise contents of the fill stream *)
+
+(** per-pixel trace of a region write: data pixel i*cx+j goes to linear position ppos i j *)
+Definition px_trace (xdim : nat) (r : rgn) : list (nat * nat) :=
+  flat_map (fun i => map (fun j => (i * r_cx r + j, ppos xdim r i j)) (seq 0 (r_cx r))) (seq 0 (r_cy r)).
+
+Lemma px_trace_spec : forall {P} (d : P) (e data : list P) xdim ydim r,
+    length e = xdim * ydim -> rgn_inside xdim ydim r = true -> length data = r_cx r * r_cy r ->
+    apply_trace 1 data (px_trace xdim r) e = spec_write_px d e xdim ydim r data.
+Proof.
+  intros P d e data xdim ydim r Hl Hin Hd.
+  pose proof (inside_facts _ _ _ Hin) as (Htx & Hty & Hcx & Hcy & Hx & Hy).
+  unfold px_trace. rewrite (flat_map_list_prod2 (fun i j => (i * r_cx r + j, ppos xdim r i j))).
+  set (fa := fun t : nat * nat => let '(i, j) := t in i * r_cx r + j).
+  set (fb := fun t : nat * nat => let '(i, j) := t in ppos xdim r i j).
+  rewrite (map_ext _ (fun t => (fa t, fb t))) by (intros [i j]; reflexivity).
+  change (map (fun t => (fa t, fb t)) (list_prod (seq 0 (r_cy r)) (seq 0 (r_cx r))))
+    with (mk_trg fa fb (list_prod (seq 0 (r_cy r)) (seq 0 (r_cx r)))).
+  assert (Hts : forall t, In t (list_prod (seq 0 (r_cy r)) (seq 0 (r_cx r))) -> fst t < r_cy r /\ snd t < r_cx r).
+  { intros [i j] Ht. apply in_prod_iff in Ht. rewrite !in_seq in Ht. simpl. lia. }
+  assert (Hb : forall t, In t (list_prod (seq 0 (r_cy r)) (seq 0 (r_cx r))) -> fa t + 1 <= length data /\ fb t + 1 <= length e).
+  { intros [i j] Ht. destruct (Hts _ Ht) as [Hi Hj]. simpl in Hi, Hj.
+    destruct (ppos_divmod xdim ydim r i j Hin Hi Hj) as (_ & _ & C). split; [unfold fa; nia | unfold fb; lia]. }
+  apply (write_pointwise d e data); auto.
+  - rewrite apply_traceg_length; auto.
+  - intros i j Hi Hj. change (ppos xdim r i j) with (fb (i, j)). rewrite <- (Nat.add_0_r (fb (i, j))).
+    rewrite (apply_traceg_nth 1 data fa fb d); auto; try lia.
+    + f_equal. unfold fa. lia.
+    + intros [a b] [a' b'] Ht Ht' E. destruct (Hts _ Ht) as [Ha Hb']. destruct (Hts _ Ht') as [Ha' Hb''].
+      simpl in *. destruct (ppos_inj xdim ydim r a b a' b' Hin Ha Hb' Ha' Hb'' E) as [-> ->]. reflexivity.
+    + apply in_prod_iff. rewrite !in_seq. lia.
+  - intros p Hp Hm. apply apply_traceg_untouched; auto.
+    intros [i j] Ht. destruct (Hts _ Ht) as [Hi Hj]. simpl in Hi, Hj.
+    specialize (Hm i j Hi Hj). unfold fb. lia.
+Qed.
+
+Lemma firstn_repeat : forall {A} (x : A) n m, n <= m -> firstn n (repeat x m) = repeat x n.
+Proof.
+  intros A x n. induction n; intros m H; [reflexivity|]. destruct m; [lia|]. simpl. f_equal. apply IHn. lia.
+Qed.
+
+Lemma firstn_app_exact : forall {A} (a b : list A), firstn (length a) (a ++ b) = a.
+Proof. intros. rewrite <- (Nat.add_0_r (length a)), firstn_app_2. simpl. apply app_nil_r. Qed.
+
+Lemma skipn_app_exact : forall {A} (a b : list A), skipn (length a) (a ++ b) = b.
+Proof. intros A a b. induction a; simpl; auto. Qed.
+
+(** a block of consecutive single-pixel copies is one memcpy *)
+Lemma block_apply : forall {A} (d : A) (src buf : list A) k0 o len,
+    k0 + len <= length src -> o + len <= length buf ->
+    apply_trace 1 src (map (fun q => (k0 + q, o + q)) (seq 0 len)) buf = memcpy_at src k0 buf o len.
+Proof.
+  intros A d src buf k0 o len Hs Hb.
+  set (fa := fun q : nat => k0 + q). set (fb := fun q : nat => o + q).
+  change (map (fun q => (k0 + q, o + q)) (seq 0 len)) with (mk_trg fa fb (seq 0 len)).
+  assert (Hbd : forall t, In t (seq 0 len) -> fa t + 1 <= length src /\ fb t + 1 <= length buf)
+    by (intros t Ht; apply in_seq in Ht; unfold fa, fb; lia).
+  assert (Hlen : length (apply_trace 1 src (mk_trg fa fb (seq 0 len)) buf) = length buf)
+    by (apply apply_traceg_length; auto).
+  unfold mk_trg in Hlen.
+  apply (nth_ext _ _ d d).
+  - rewrite Hlen. rewrite memcpy_at_length; auto.
+  - rewrite Hlen. intros p Hp.
+    change (map (fun q : nat => (fa q, fb q)) (seq 0 len)) with (mk_trg fa fb (seq 0 len)).
+    destruct (le_lt_dec o p) as [L1|L1]; [destruct (le_lt_dec (o + len) p) as [L2|L2]|].
+    + rewrite memcpy_at_nth_out by lia. apply apply_traceg_untouched; auto.
+      intros t Ht. apply in_seq in Ht. unfold fb. lia.
+    + assert (Hfun : forall t t', In t (seq 0 len) -> In t' (seq 0 len) -> fb t = fb t' -> fa t = fa t')
+        by (intros t t' _ _ E; unfold fa, fb in *; lia).
+      assert (Hdis : forall t t', In t (seq 0 len) -> In t' (seq 0 len) ->
+                                  fb t = fb t' \/ fb t + 1 <= fb t' \/ fb t' + 1 <= fb t) by (intros; lia).
+      assert (Hin : In (p - o) (seq 0 len)) by (apply in_seq; lia).
+      pose proof (apply_traceg_nth 1 src fa fb d (seq 0 len) buf (p - o) 0 Hbd Hfun Hdis Hin ltac:(lia)) as E.
+      replace (fb (p - o) + 0) with p in E by (unfold fb; lia). rewrite E.
+      replace p with (o + (p - o)) at 2 by lia. rewrite memcpy_at_nth_in by lia. f_equal. unfold fa. lia.
+    + rewrite memcpy_at_nth_out by lia. apply apply_traceg_untouched; auto.
+      intros t Ht. apply in_seq in Ht. unfold fb. lia.
+Qed.
+
+Section FirstWrite.
+  Context {P : Type}.
+  Variables (f : P) (m : nat) (data : list P).
+  Let fl := repeat f m.
+
+  Inductive seg := SF (n : nat) | SD (k0 len : nat).
+  Definition realize (s : seg) : wop P :=
+    match s with SF n => WWrite (firstn n fl) | SD k0 len => WWrite (firstn len (skipn k0 data)) end.
+  Definition seg_len (s : seg) : nat := match s with SF n => n | SD _ len => len end.
+  Definition seg_ok (s : seg) : Prop := match s with SF n => n <= m | SD k0 len => k0 + len <= length data end.
+  Fixpoint total (segs : list seg) : nat := match segs with [] => 0 | s :: r => seg_len s + total r end.
+  Fixpoint place (segs : list seg) (pos : nat) : list (nat * nat) :=
+    match segs with
+    | [] => []
+    | SF n :: r => place r (pos + n)
+    | SD k0 len :: r => map (fun q => (k0 + q, pos + q)) (seq 0 len) ++ place r (pos + len)
+    end.
+
+  Lemma total_app : forall a b, total (a ++ b) = total a + total b.
+  Proof. induction a; intros; simpl; auto. rewrite IHa. lia. Qed.
+  Lemma place_app : forall a b pos, place (a ++ b) pos = place a pos ++ place b (pos + total a).
+  Proof.
+    induction a as [|s a IH]; intros b pos; simpl; [rewrite Nat.add_0_r; auto|].
+    destruct s; simpl; rewrite IH; [| rewrite <- app_assoc]; rewrite Nat.add_assoc; reflexivity.
+  Qed.
+
+  (** the sequential stream is the per-pixel trace applied to an all-fill buffer *)
+  Lemma stream_is_trace : forall segs pre,
+      Forall seg_ok segs ->
+      apply_trace 1 data (place segs (length pre)) (pre ++ repeat f (total segs)) =
+      pre ++ wdata (map realize segs).
+  Proof.
+    induction segs as [|s segs IH]; intros pre Hok; [reflexivity|].
+    inversion Hok as [|? ? Hs Hr]; subst. destruct s as [n|k0 len]; simpl in Hs.
+    - cbn [place total seg_len map realize]. unfold wdata. cbn [flat_map]. fold (wdata (map realize segs)).
+      unfold fl. rewrite firstn_repeat by auto. rewrite repeat_app, app_assoc.
+      replace (length pre + n) with (length (pre ++ repeat f n)) by (rewrite app_length, repeat_length; auto).
+      rewrite IH by auto. rewrite <- app_assoc. reflexivity.
+    - cbn [place total seg_len map realize]. unfold wdata. cbn [flat_map]. fold (wdata (map realize segs)).
+      rewrite apply_trace_app.
+      rewrite (block_apply f) by (rewrite ?app_length, ?repeat_length; lia).
+      assert (E : memcpy_at data k0 (pre ++ repeat f (len + total segs)) (length pre) len =
+                  (pre ++ firstn len (skipn k0 data)) ++ repeat f (total segs)).
+      { unfold memcpy_at. rewrite firstn_app_exact. rewrite repeat_app.
+        replace (length pre + len) with (length (pre ++ repeat f len)) by (rewrite app_length, repeat_length; auto).
+        rewrite (app_assoc pre (repeat f len)), skipn_app_exact. rewrite app_assoc. reflexivity. }
+      rewrite E.
+      replace (length pre + len) with (length (pre ++ firstn len (skipn k0 data)))
+        by (rewrite app_length, firstn_length, skipn_length; lia).
+      rewrite IH by auto. rewrite <- app_assoc. reflexivity.
+  Qed.
+
+  (** shadow of the first-write generators: which writes are fill and which are data *)
+  Definition s_opt (b : bool) (s : seg) : list seg := if b then [s] else [].
+  Fixpoint s_solid_rows (n plen hl k0 : nat) : list seg :=
+    match n with
+    | 0 => []
+    | S n' => SD k0 plen :: s_opt ((0 <? hl) && (0 <? n')) (SF hl) ++ s_solid_rows n' plen hl (k0 + plen)
+    end.
+  Fixpoint s_px (n gap : nat) (fx : bool) (k0 : nat) : list seg :=
+    match n with
+    | 0 => []
+    | S n' => SD k0 1 :: s_opt (fx && (0 <? n')) (SF gap) ++ s_px n' gap fx (k0 + 1)
+    end.
+  Fixpoint s_rows (n cxn gap : nat) (fx fy : bool) (tyn lsz hl k0 : nat) : list seg :=
+    match n with
+    | 0 => []
+    | S n' => s_px cxn gap fx k0 ++ (if fy && (0 <? n') then repeat (SF lsz) (tyn - 1) else [])
+                   ++ s_opt ((0 <? hl) && (0 <? n')) (SF hl) ++ s_rows n' cxn gap fx fy tyn lsz hl (k0 + cxn)
+    end.
+
+  Lemma realize_lines : forall lsz n, map realize (repeat (SF lsz) n) = fill_lines fl lsz n.
+  Proof. intros. unfold fill_lines. induction n; simpl; auto. f_equal. auto. Qed.
+  Lemma realize_opt : forall b k, map realize (s_opt b (SF k)) = opt_w b (wfill fl k).
+  Proof. intros [] k; reflexivity. Qed.
+  Lemma realize_solid_rows : forall n plen hl k0,
+      map realize (s_solid_rows n plen hl k0) = solid_fill_rows n plen hl fl (skipn k0 data).
+  Proof.
+    induction n; intros plen hl k0; [reflexivity|]. cbn [s_solid_rows solid_fill_rows map realize].
+    rewrite map_app, realize_opt, IHn, skipn_skipn'. reflexivity.
+  Qed.
+  Lemma realize_px : forall n gap fx k0,
+      strided_fill_px n gap 1 fx fl (skipn k0 data) = (map realize (s_px n gap fx k0), skipn (k0 + n) data).
+  Proof.
+    induction n; intros gap fx k0; [simpl; rewrite Nat.add_0_r; reflexivity|].
+    cbn [strided_fill_px s_px]. rewrite skipn_skipn', IHn. cbn [map realize].
+    rewrite map_app, realize_opt. f_equal. f_equal. lia.
+  Qed.
+  Lemma realize_rows : forall n cxn gap fx fy tyn lsz hl k0,
+      map realize (s_rows n cxn gap fx fy tyn lsz hl k0) =
+      strided_fill_rows n cxn gap 1 fx fy tyn lsz hl fl (skipn k0 data).
+  Proof.
+    induction n; intros cxn gap fx fy tyn lsz hl k0; [reflexivity|].
+    cbn [s_rows strided_fill_rows]. rewrite realize_px. rewrite !map_app, realize_opt, IHn.
+    f_equal. f_equal. destruct (fy && (0 <? n)); [apply realize_lines | reflexivity].
+  Qed.
+
+  (** layout: positions, sizes and validity of the shadow streams *)
+  Lemma lines_layout : forall lsz n pos, lsz <= m ->
+      place (repeat (SF lsz) n) pos = [] /\ total (repeat (SF lsz) n) = n * lsz /\ Forall seg_ok (repeat (SF lsz) n).
+  Proof.
+    intros lsz n. induction n; intros pos H; simpl; [auto|].
+    destruct (IHn (pos + lsz) H) as (A & B & C). repeat split; auto; lia.
+  Qed.
+  Lemma opt_layout : forall b k pos, k <= m ->
+      place (s_opt b (SF k)) pos = [] /\ total (s_opt b (SF k)) = (if b then k else 0) /\ Forall seg_ok (s_opt b (SF k)).
+  Proof. intros [] k pos H; simpl; repeat split; auto. Qed.
+
+  Lemma solid_rows_layout : forall n plen hl k0 pos,
+      hl <= m -> k0 + n * plen <= length data ->
+      place (s_solid_rows n plen hl k0) pos =
+      flat_map (fun i => map (fun q => (k0 + i * plen + q, pos + i * (plen + hl) + q)) (seq 0 plen)) (seq 0 n) /\
+      total (s_solid_rows n plen hl k0) = n * plen + (n - 1) * hl /\
+      Forall seg_ok (s_solid_rows n plen hl k0).
+  Proof.
+    induction n; intros plen hl k0 pos Hh Hd; [simpl; auto|].
+    cbn [s_solid_rows place]. rewrite place_app.
+    destruct (opt_layout ((0 <? hl) && (0 <? n)) hl (pos + plen) Hh) as (A1 & A2 & A3).
+    destruct (IHn plen hl (k0 + plen) (pos + plen + total (s_opt ((0 <? hl) && (0 <? n)) (SF hl))) Hh ltac:(lia)) as (B1 & B2 & B3).
+    assert (Et : total (s_opt ((0 <? hl) && (0 <? n)) (SF hl)) = if 0 <? n then hl else 0).
+    { rewrite A2. destruct hl; simpl; [destruct (0 <? n); reflexivity | reflexivity]. }
+    split; [|split].
+    - rewrite A1, B1. cbn [seq flat_map app]. f_equal.
+      + apply map_ext. intros q. f_equal; lia.
+      + rewrite (flat_map_seq_shift _ 1 n). apply flat_map_ext_in'. intros i Hi. apply in_seq in Hi.
+        apply map_ext. intros q. rewrite Et. destruct n; [lia|]. change (0 <? S n) with true. cbv iota. f_equal; nia.
+    - cbn [total seg_len]. rewrite total_app, B2, Et. destruct n; simpl; lia.
+    - constructor; [simpl; lia|]. apply Forall_app. auto.
+  Qed.
+
+  Lemma px_layout : forall n gap fx k0 pos,
+      (2 <= n -> gap <= m) -> (fx = false -> gap = 0) -> k0 + n <= length data ->
+      place (s_px n gap fx k0) pos = map (fun j => (k0 + j, pos + j * (1 + gap))) (seq 0 n) /\
+      total (s_px n gap fx k0) = n + (n - 1) * gap /\ Forall seg_ok (s_px n gap fx k0).
+  Proof.
+    induction n; intros gap fx k0 pos Hg Hfx Hd; [simpl; auto|].
+    cbn [s_px place]. rewrite place_app.
+    assert (Et : total (s_opt (fx && (0 <? n)) (SF gap)) = if 0 <? n then gap else 0).
+    { destruct fx; simpl; [destruct (0 <? n); simpl; lia|]. rewrite (Hfx eq_refl). destruct (0 <? n); reflexivity. }
+    assert (Hp : place (s_opt (fx && (0 <? n)) (SF gap)) (pos + 1) = []) by (destruct (fx && (0 <? n)); reflexivity).
+    assert (Hk : Forall seg_ok (s_opt (fx && (0 <? n)) (SF gap))).
+    { destruct n; [rewrite andb_false_r; constructor|]. destruct fx; simpl; [|constructor].
+      constructor; [|constructor]. simpl. apply Hg. lia. }
+    destruct (IHn gap fx (k0 + 1) (pos + 1 + total (s_opt (fx && (0 <? n)) (SF gap))) ltac:(intros; apply Hg; lia) Hfx ltac:(lia))
+      as (B1 & B2 & B3).
+    split; [|split].
+    - rewrite Hp, B1. cbn [seq map app]. apply f_equal2; [f_equal; lia|].
+      rewrite (map_seq_shift _ 1 n). apply map_ext_in. intros j Hj. apply in_seq in Hj.
+      rewrite Et. destruct n; [lia|]. change (0 <? S n) with true. cbv iota. f_equal; nia.
+    - cbn [total seg_len]. rewrite total_app, B2, Et. destruct n; simpl; lia.
+    - constructor; [simpl; lia|]. apply Forall_app. auto.
+  Qed.
+
+  Lemma rows_layout : forall n cxn gap fx fy tyn lsz hl k0 pos,
+      (2 <= cxn -> gap <= m) -> (fx = false -> gap = 0) -> (fy = false -> tyn - 1 = 0) -> lsz <= m -> hl <= m ->
+      k0 + n * cxn <= length data ->
+      let R := cxn + (cxn - 1) * gap + (tyn - 1) * lsz + hl in
+      place (s_rows n cxn gap fx fy tyn lsz hl k0) pos =
+      flat_map (fun i => map (fun j => (k0 + i * cxn + j, pos + i * R + j * (1 + gap))) (seq 0 cxn)) (seq 0 n) /\
+      total (s_rows n cxn gap fx fy tyn lsz hl k0) = n * (cxn + (cxn - 1) * gap) + (n - 1) * ((tyn - 1) * lsz + hl) /\
+      Forall seg_ok (s_rows n cxn gap fx fy tyn lsz hl k0).
+  Proof.
+    induction n; intros cxn gap fx fy tyn lsz hl k0 pos Hg Hfx Hfy Hls Hh Hd R; [simpl; auto|].
+    cbn [s_rows]. rewrite !place_app, !total_app.
+    destruct (px_layout cxn gap fx k0 pos Hg Hfx ltac:(lia)) as (A1 & A2 & A3).
+    set (L := if fy && (0 <? n) then repeat (SF lsz) (tyn - 1) else []).
+    assert (HL : forall p, place L p = [] /\ total L = (if 0 <? n then (tyn - 1) * lsz else 0) /\ Forall seg_ok L).
+    { intros p. subst L. destruct fy; simpl.
+      - destruct (0 <? n); [apply lines_layout; auto | simpl; auto].
+      - rewrite (Hfy eq_refl). destruct (0 <? n); simpl; auto. }
+    set (O := s_opt ((0 <? hl) && (0 <? n)) (SF hl)).
+    assert (HO : forall p, place O p = [] /\ total O = (if 0 <? n then hl else 0) /\ Forall seg_ok O).
+    { intros p. subst O. destruct (opt_layout ((0 <? hl) && (0 <? n)) hl p Hh) as (X1 & X2 & X3).
+      repeat split; auto. rewrite X2. destruct hl; simpl; [destruct (0 <? n); reflexivity | reflexivity]. }
+    destruct (HL (pos + total (s_px cxn gap fx k0))) as (L1 & L2 & L3).
+    destruct (HO (pos + total (s_px cxn gap fx k0) + total L)) as (O1 & O2 & O3).
+    destruct (IHn cxn gap fx fy tyn lsz hl (k0 + cxn) (pos + total (s_px cxn gap fx k0) + total L + total O)
+                  Hg Hfx Hfy Hls Hh ltac:(lia)) as (B1 & B2 & B3).
+    fold R in B1.
+    assert (ER : R = cxn + (cxn - 1) * gap + (tyn - 1) * lsz + hl) by reflexivity. clearbody R.
+    remember ((cxn - 1) * gap) as a eqn:Ea. remember ((tyn - 1) * lsz) as b eqn:Eb.
+    split; [|split].
+    - rewrite A1, L1, O1, B1. cbn [seq flat_map app]. f_equal.
+      + apply map_ext. intros j. f_equal; lia.
+      + rewrite (flat_map_seq_shift _ 1 n). apply flat_map_ext_in'. intros i Hi. apply in_seq in Hi.
+        apply map_ext. intros j. rewrite A2, L2, O2. destruct n; [exfalso; clear - Hi; lia|].
+        change (0 <? S n) with true. cbv iota.
+        f_equal; [clear; lia | clear - ER; lia].
+    - rewrite A2, L2, O2, B2. destruct n; [clear; simpl; lia|]. change (0 <? S n) with true. cbv iota.
+      replace (S (S n) - 1) with (S n) by (clear; lia). replace (S n - 1) with n by (clear; lia). clear. lia.
+    - apply Forall_app; split; [auto|]. apply Forall_app; split; [auto|]. apply Forall_app; split; auto.
+  Qed.
+End FirstWrite.
+
+Lemma place_lines_nil : forall lsz n pos, place (repeat (SF lsz) n) pos = [].
+Proof. intros lsz n. induction n; intros pos; simpl; auto. Qed.
+Lemma place_opt_nil : forall b k pos, place (s_opt b (SF k)) pos = [].
+Proof. intros [] k pos; reflexivity. Qed.
+
+Lemma row_width : forall xdim sx tx cx, 1 <= tx -> 1 <= cx -> sx + (cx - 1) * tx < xdim ->
+    cx + (cx - 1) * (tx - 1) + (xdim - (sx + (cx - 1) * tx + 1) + sx) = xdim.
+Proof.
+  intros xdim sx tx cx Ht Hc H. destruct cx as [|c]; [lia|]. destruct tx as [|t]; [lia|].
+  replace (S c - 1) with c in * by lia. replace (S t - 1) with t by lia. nia.
+Qed.
+
+Lemma first_write_fills_image_lemma : forall {P} (d f : P) (data : list P) xdim ydim r,
+    rgn_inside xdim ydim r = true -> length data = r_cx r * r_cy r ->
+    gr_write_px None xdim ydim r f data = spec_write_px d (repeat f (xdim * ydim)) xdim ydim r data.
+Proof.
+  intros P d f data xdim ydim r Hin Hd.
+  pose proof (inside_facts _ _ _ Hin) as (Htx & Hty & Hcx & Hcy & Hx & Hy).
+  assert (HlenF : length (repeat f (xdim * ydim)) = xdim * ydim) by apply repeat_length.
+  destruct (whole_image xdim ydim r) eqn:Ew.
+  - rewrite <- (region_write_refines_lemma d (repeat f (xdim * ydim)) data xdim ydim r f HlenF Hin Hd).
+    assert (Hw := Ew). unfold whole_image, solid_block in Hw.
+    repeat (apply andb_prop in Hw; destruct Hw as [Hw ?]).
+    repeat match goal with H : (_ =? _) = true |- _ => apply Nat.eqb_eq in H end.
+    rewrite !whole_write_lemma; auto; try (subst; lia).
+    + intros l El. injection El as <-. auto.
+    + intros l El. discriminate.
+  - destruct (first_write_covers_image_lemma (repeat f xdim) xdim ydim r data (repeat_length _ _) Hin Ew Hd) as (_ & _ & Hrun).
+    unfold gr_write_px. rewrite Hrun. cbn [fst].
+    rewrite <- (px_trace_spec d (repeat f (xdim * ydim)) data xdim ydim r HlenF Hin Hd).
+    (* the generator in shadow form *)
+    unfold gr_write_ops. rewrite Ew.
+    unfold Gb, G, wr_fill_lo_cond, wr_fill_hi_cond, wr_fill_lo_size, wr_fill_hi_size, wr_fill_line_size,
+      wr_pix_len, wr_trail_to_0, wr_trail_from_0, wr_trail_to_1, wr_trail_from_1, wr_fill_stride_size.
+    rewrite ?Nat.mul_1_l.
+    set (lo := if 0 <? r_sx r then r_sx r else 0).
+    set (hi := if r_sx r + (r_cx r - 1) * r_tx r + 1 <? xdim then xdim - (r_sx r + (r_cx r - 1) * r_tx r + 1) else 0).
+    assert (Elo : lo = r_sx r) by (subst lo; destruct (r_sx r); reflexivity).
+    assert (Ehi : hi = xdim - (r_sx r + (r_cx r - 1) * r_tx r + 1)).
+    { subst hi. destruct (r_sx r + (r_cx r - 1) * r_tx r + 1 <? xdim) eqn:E; auto. apply Nat.ltb_ge in E. lia. }
+    clearbody lo hi.
+    set (tr := ydim - (r_sy r + (r_cy r - 1) * r_ty r + 1)).
+    assert (Hlo : lo <= xdim) by (rewrite Elo; clear - Hx; nia).
+    assert (Hhi : hi <= xdim) by (rewrite Ehi; clear; lia).
+    assert (Hhl : hi + lo <= xdim) by (rewrite Elo, Ehi; clear - Hx; nia).
+    change data with (skipn 0 data) at 1 2.
+    destruct (lines_layout xdim data xdim (r_sy r) 0 (le_n _)) as (A1 & A2 & A3).
+    destruct (solid_block r) eqn:Es.
+    + unfold solid_block in Es. apply andb_prop in Es. destruct Es as [E1 E2].
+      apply Nat.eqb_eq in E1. apply Nat.eqb_eq in E2.
+      set (segs := repeat (SF xdim) (r_sy r) ++ s_opt (0 <? lo) (SF lo) ++ s_solid_rows (r_cy r) (r_cx r) (hi + lo) 0
+                          ++ s_opt (0 <? hi) (SF hi) ++ repeat (SF xdim) tr).
+      assert (Hops : map (realize f xdim data) segs =
+                     fill_lines (repeat f xdim) xdim (r_sy r) ++ opt_w (0 <? lo) (wfill (repeat f xdim) lo)
+                       ++ solid_fill_rows (r_cy r) (r_cx r) (hi + lo) (repeat f xdim) (skipn 0 data)
+                       ++ opt_w (0 <? hi) (wfill (repeat f xdim) hi) ++ fill_lines (repeat f xdim) xdim tr).
+      { subst segs. rewrite !map_app, !realize_lines, !realize_opt, realize_solid_rows. reflexivity. }
+      rewrite <- Hops.
+      destruct (opt_layout xdim data (0 <? lo) lo (r_sy r * xdim) Hlo) as (B1 & B2 & B3).
+      assert (B2' : total (s_opt (0 <? lo) (SF lo)) = lo) by (rewrite B2; destruct lo; reflexivity).
+      destruct (solid_rows_layout xdim data (r_cy r) (r_cx r) (hi + lo) 0 (r_sy r * xdim + lo) Hhl ltac:(lia)) as (C1 & C2 & C3).
+      destruct (opt_layout xdim data (0 <? hi) hi (r_sy r * xdim + lo + (r_cy r * r_cx r + (r_cy r - 1) * (hi + lo))) Hhi) as (D1 & D2 & D3).
+      assert (D2' : total (s_opt (0 <? hi) (SF hi)) = hi) by (rewrite D2; destruct hi; reflexivity).
+      destruct (lines_layout xdim data xdim tr
+                             (r_sy r * xdim + lo + (r_cy r * r_cx r + (r_cy r - 1) * (hi + lo)) + hi) (le_n _)) as (F1 & F2 & F3).
+      assert (Hok : Forall (seg_ok xdim data) segs).
+      { subst segs. apply Forall_app; split; [auto|]. apply Forall_app; split; [auto|].
+        apply Forall_app; split; [auto|]. apply Forall_app; split; auto. }
+      assert (Htot : total segs = xdim * ydim).
+      { subst segs. rewrite !total_app, A2, B2', C2, D2', F2. subst tr. rewrite E1, E2 in *.
+        pose proof (solid_total xdim ydim (r_sx r) (r_sy r) (r_cx r) (r_cy r) lo hi Hcx Hcy Hx Hy Elo Ehi). lia. }
+      assert (Hpl : place segs 0 = px_trace xdim r).
+      { subst segs. rewrite !place_app, !place_lines_nil, !place_opt_nil, A2, B2'. cbn [app]. simpl (0 + _).
+        rewrite C1, !app_nil_r. unfold px_trace.
+        apply flat_map_ext_in'. intros i Hi. apply in_seq in Hi. apply map_ext_in. intros j Hj. apply in_seq in Hj.
+        unfold ppos. rewrite E1, E2.
+        pose proof (row_width xdim (r_sx r) (r_tx r) (r_cx r) Htx Hcx Hx) as RW. rewrite E1 in RW.
+        apply f_equal2; [lia|]. subst lo hi. rewrite E1. nia. }
+      pose proof (stream_is_trace f xdim data segs [] Hok) as ST. cbn [length app] in ST.
+      rewrite <- ST, Hpl, Htot. reflexivity.
+    + set (gap := r_tx r - 1).
+      set (segs := repeat (SF xdim) (r_sy r) ++ s_opt (0 <? lo) (SF lo)
+                          ++ s_rows (r_cy r) (r_cx r) gap (1 <? r_tx r) (1 <? r_ty r) (r_ty r) xdim (hi + lo) 0
+                          ++ s_opt (0 <? hi) (SF hi) ++ repeat (SF xdim) tr).
+      assert (Hops : map (realize f xdim data) segs =
+                     fill_lines (repeat f xdim) xdim (r_sy r) ++ opt_w (0 <? lo) (wfill (repeat f xdim) lo)
+                       ++ strided_fill_rows (r_cy r) (r_cx r) gap 1 (1 <? r_tx r) (1 <? r_ty r) (r_ty r) xdim (hi + lo)
+                                            (repeat f xdim) (skipn 0 data)
+                       ++ opt_w (0 <? hi) (wfill (repeat f xdim) hi) ++ fill_lines (repeat f xdim) xdim tr).
+      { subst segs. rewrite !map_app, !realize_lines, !realize_opt, realize_rows. reflexivity. }
+      rewrite <- Hops.
+      assert (Hfx : (1 <? r_tx r) = false -> gap = 0) by (intros E; apply Nat.ltb_ge in E; subst gap; lia).
+      assert (Hfy : (1 <? r_ty r) = false -> r_ty r - 1 = 0) by (intros E; apply Nat.ltb_ge in E; lia).
+      assert (Hg : 2 <= r_cx r -> gap <= xdim).
+      { intros H2. subst gap. assert (r_tx r * 1 <= (r_cx r - 1) * r_tx r) by nia. lia. }
+      destruct (opt_layout xdim data (0 <? lo) lo (r_sy r * xdim) Hlo) as (B1 & B2 & B3).
+      assert (B2' : total (s_opt (0 <? lo) (SF lo)) = lo) by (rewrite B2; destruct lo; reflexivity).
+      destruct (rows_layout xdim data (r_cy r) (r_cx r) gap (1 <? r_tx r) (1 <? r_ty r) (r_ty r) xdim (hi + lo) 0
+                            (r_sy r * xdim + lo) Hg Hfx Hfy (le_n _) Hhl ltac:(lia)) as (C1 & C2 & C3).
+      set (TS := r_cy r * (r_cx r + (r_cx r - 1) * gap) + (r_cy r - 1) * ((r_ty r - 1) * xdim + (hi + lo))) in *.
+      destruct (opt_layout xdim data (0 <? hi) hi (r_sy r * xdim + lo + TS) Hhi) as (D1 & D2 & D3).
+      assert (D2' : total (s_opt (0 <? hi) (SF hi)) = hi) by (rewrite D2; destruct hi; reflexivity).
+      destruct (lines_layout xdim data xdim tr (r_sy r * xdim + lo + TS + hi) (le_n _)) as (F1 & F2 & F3).
+      assert (Hok : Forall (seg_ok xdim data) segs).
+      { subst segs. apply Forall_app; split; [auto|]. apply Forall_app; split; [auto|].
+        apply Forall_app; split; [auto|]. apply Forall_app; split; auto. }
+      assert (Htot : total segs = xdim * ydim).
+      { subst segs. rewrite !total_app, A2, B2', C2, D2', F2. subst tr TS gap.
+        pose proof (strided_total xdim ydim (r_sx r) (r_sy r) (r_tx r) (r_ty r) (r_cx r) (r_cy r) lo hi
+                                  Htx Hty Hcx Hcy Hx Hy Elo Ehi). lia. }
+      assert (Hpl : place segs 0 = px_trace xdim r).
+      { subst segs. rewrite !place_app, !place_lines_nil, !place_opt_nil, A2, B2'. cbn [app]. simpl (0 + _).
+        rewrite C1, !app_nil_r. unfold px_trace.
+        apply flat_map_ext_in'. intros i Hi. apply in_seq in Hi. apply map_ext_in. intros j Hj. apply in_seq in Hj.
+        unfold ppos.
+        pose proof (row_width xdim (r_sx r) (r_tx r) (r_cx r) Htx Hcx Hx) as RW.
+        assert (ER : r_cx r + (r_cx r - 1) * gap + (r_ty r - 1) * xdim + (hi + lo) = r_ty r * xdim).
+        { subst gap lo hi. clear - RW Hty. destruct (r_ty r) as [|t]; [lia|]. replace (S t - 1) with t by lia. lia. }
+        rewrite ER. apply f_equal2; [lia|]. subst gap lo. clear - Htx. destruct (r_tx r) as [|t]; [lia|].
+        replace (1 + (S t - 1)) with (S t) by lia. lia. }
+      pose proof (stream_is_trace f xdim data segs [] Hok) as ST. cbn [length app] in ST.
+      rewrite <- ST, Hpl, Htot. reflexivity.
+Qed.
+
+Lemma region_refines_image_lemma : forall (P : Type) (d : P) (e data : list P) xdim ydim r (f : P),
+    length e = xdim * ydim -> rgn_inside xdim ydim r = true -> length data = r_cx r * r_cy r ->
+    gr_write_px (Some e) xdim ydim r f data = spec_write_px d e xdim ydim r data /\
+    gr_read_px e xdim ydim r = spec_read_px d e xdim r.
+Proof.
+  intros P d e data xdim ydim r f H1 H2 H3. split.
+  - exact (region_write_refines_lemma d e data xdim ydim r f H1 H2 H3).
+  - exact (region_read_refines_lemma d e xdim ydim r H1 H2).
+Qed.
+
+Lemma read_after_write_lemma : forall (P : Type) (d : P) (e data : list P) xdim ydim r (f : P),
+    length e = xdim * ydim -> rgn_inside xdim ydim r = true -> length data = r_cx r * r_cy r ->
+    gr_read_px (gr_write_px (Some e) xdim ydim r f data) xdim ydim r =
+    spec_read_px d (spec_write_px d e xdim ydim r data) xdim r.
+Proof.
+  intros P d e data xdim ydim r f H1 H2 H3.
+  rewrite (region_write_refines_lemma d e data xdim ydim r f H1 H2 H3).
+  apply region_read_refines_lemma; auto. unfold spec_write_px. rewrite map_length, seq_length. reflexivity.
+Qed.
